@@ -6,6 +6,7 @@ import (
 	"os"
 	"os/exec"
 	"path/filepath"
+	"strings"
 )
 
 func listScenarios(bin, job string) ([]string, error) {
@@ -34,11 +35,42 @@ func init() {
 			if err != nil {
 				return nil, nil, nil, err
 			}
-			bounds, secs := []int{0, 1}, 100
+			bounds, fastBounds, secs := []int{0, 1}, []int{2}, 100
 			if c.Tier == "thorough" {
-				bounds, secs = []int{0, 1, 2}, 1500
+				bounds, fastBounds, secs = []int{0, 1, 2}, []int{2, 3}, 1500
 			}
-			sums, viols, samples, err := runSched(c, bin, "c20", names, bounds, 8, secs)
+			// scenarios that need the rescan-batch overlay are left out (and named in the
+			// evidence) when the current tree does not contain the line the overlay rewrites
+			batchOverlay := false
+			for _, o := range c.Overlays {
+				if strings.HasPrefix(o, "asyncImport:") && !strings.Contains(o, "NOT APPLIED") {
+					batchOverlay = true
+				}
+			}
+			var skipped []string
+			for i, n := range names {
+				if strings.Contains(n, "[batch]") && !batchOverlay {
+					skipped = append(skipped, n)
+					names[i] = ""
+				}
+				if strings.Contains(n, "[deep]") && c.Tier != "thorough" {
+					names[i] = ""
+				}
+			}
+			if only := c.Args["only"]; only != "" { // development aid: vcheck C20 --only <substring>
+				for i, n := range names {
+					if !strings.Contains(n, only) {
+						names[i] = ""
+					}
+				}
+			}
+			boundsFor := func(name string) []int {
+				if strings.Contains(name, "[fast]") {
+					return fastBounds
+				}
+				return bounds
+			}
+			sums, viols, samples, err := runSchedB(c, bin, "c20", names, boundsFor, 8, secs)
 			if err != nil {
 				return nil, nil, nil, err
 			}
@@ -69,6 +101,7 @@ func init() {
 				"exhaustive":                    exhaustive,
 				"per_scenario":                  sums,
 				"highest_bound_completed":       doneBound,
+				"scenarios_skipped_no_overlay":  skipped,
 				"samples":                       smp,
 				"rule": "stateless depth-first exploration with iterative preemption bounding over a cooperative controlled scheduler on the INSTRUMENTED REAL code " +
 					"(go build -overlay: \"sync\" -> scheduler shim in masswallet, keystore, txmgr, db/ldb; go/close/send/recv/select rewritten in ntfnshandler.go, task.go, wallet.go). " +
@@ -80,7 +113,8 @@ func init() {
 			return cov, []string{
 				"memory-model effects the cooperative scheduler cannot show (unsynchronised accesses) are left to the separate free-running -race pass of C17",
 				"an API call that keeps running after the stop sequence closed the database is counted (api_after_close) but not reported: loader.UnloadWallet stops the API server before the wallet manager",
-				fmt.Sprintf("preemption bounds explored: %v; a scenario whose exploration hit the time cap is reported with exhaustive=false and the bound completed below it", bounds),
+				"[batch] scenarios: one rescan batch covers 1 height (overlay + hook variable), so an import of a 3-4 block chain takes 3-4 batches and is queued again between them; [fast] scenarios: preemptions at channel operations, wait groups and blocking locks only, explored at a higher preemption bound",
+				fmt.Sprintf("preemption bounds explored: %v (fast scenarios: %v); a scenario whose exploration hit the time cap is reported with exhaustive=false and the bound completed below it", bounds, fastBounds),
 			}, viols, nil
 		},
 		Replay: func(c *runCtx, file string) error { return replaySched(c, "c20", file) },
